@@ -54,6 +54,16 @@ def ns():
     def pdiv(x):
         return 10 // x
 
+    LOG = []
+
+    def rec(name, *deps):
+        """a dataset that records its execution in LOG and returns (name, *args)"""
+        names = [f"a{i}" for i in range(len(deps))]
+        src = f"def body({', '.join(f'{n}=deps[{i}]' for i, n in enumerate(names))}):\n    LOG.append(name)\n    return (name, {', '.join(names)}{',' if names else ''})"
+        env = {"deps": deps, "LOG": LOG, "name": name}
+        exec(src, env)
+        return dataset(env["body"]).nocache if False else dataset.nocache(env["body"])
+
     NS = dict(locals())
     NS["labrea"] = labrea
     return NS
@@ -64,13 +74,14 @@ RECIPES = {
     "Value": ["Value(3)", "Value([1, {'a': 2}])"],
     "Apply": ["Option('A').apply(inc)", "Option('A') >> Option('FN', inc)", "Option('A', 1) >> pdiv", "Option('S.X') >> ident"],
     "Bind": ["Option('A').bind(pick)", "Option('A', 0).bind(pick)"],
-    "Switch": ["switch(Option('A'), {1: Option('X'), 2: Option('Y', 5)}, Option('Z'))", "switch(Option('A'), {1: Option('X')})",
+    "Switch": ["switch(Option('A', 1), {1: rec('one'), 2: rec('two')}, rec('dflt'))","switch(Option('A'), {1: Option('X'), 2: Option('Y', 5)}, Option('Z'))", "switch(Option('A'), {1: Option('X')})",
                "switch(Option('A', 1), {1: Option('X'), True: Value(7)}, Value(9))", "switch('A', {1: ds(Option('X'))}, ds(Option('Z', 0)))"],
     "Overloaded": ["Overloaded(Option('A'), {1: Option('X')}, Option('Z'))", "Overloaded(Option('A'), {1: Option('X'), 2: Option('Y')})"],
-    "CaseWhen": ["case(Option('A')).when(F.eq(Option('T')), Option('X')).otherwise(Option('Z', 0))",
+    "CaseWhen": ["case(Option('A', 0)).when(F.is_in(rec('c1')), rec('r1')).when(F.is_in(rec('c2')), rec('r2')).otherwise(rec('r3'))",
+                 "case(Option('A', 0)).when(lambda a: a == 1, rec('r1')).when(F.eq(rec('c2') >> (lambda t: 2)), rec('r2')).otherwise(rec('r3'))","case(Option('A')).when(F.eq(Option('T')), Option('X')).otherwise(Option('Z', 0))",
                  "case(Option('A')).when(lambda a: isinstance(a, int) and a > 1, 'big').when(F.eq(Option('T', 1)), Option('Y'))",
                  "case(Option('A', 0)).when(lambda a: a == 1, Option('X')).otherwise('small')"],
-    "Coalesce": ["coalesce(Option('A'), Option('B'))", "coalesce(Option('A') >> pdiv, Option('B', 2))", "coalesce(Option('S.X'), Value(1))"],
+    "Coalesce": ["coalesce(rec('p', Option('A')), rec('q', Option('B', 1)), rec('r'))", "coalesce(Option('A'), Option('B'))", "coalesce(Option('A') >> pdiv, Option('B', 2))", "coalesce(Option('S.X'), Value(1))"],
     "Iter": ["Iter(Option('A'), Option('B', 2)).apply(list)", "Iter(Option('A')).apply(tuple)"],
     "EvaluatableArgs": ["EvaluatableArgs(Option('A'), Option('B', 2))"],
     "EvaluatableKwargs": ["EvaluatableKwargs(a=Option('A'), b=Option('B', 2))"],
@@ -85,7 +96,7 @@ RECIPES = {
     "WithOptions": ["WithOptions(Option('A'), {'A': 1})", "WithOptions(Option('S'), {'S': {'X': 1}})", "WithDefaultOptions(Option('S.X'), {'S': {'X': 1}})",
                     "WithDefaultOptions(Option('A', 5), {'A': 2})", "WithOptions(ds(Option('A'), Option('S.Y', 0)), {'S': {'X': 1}})"],
     "Cached": ["cached(Option('A'))", "cached(ds(Option('A'), Option('B', 2)))", "cached(switch(Option('A'), {1: Option('X')}, Option('Z', 3)))"],
-    "Option": ["Option('A')", "Option('A', 5)", "Option('S.X', Option('B'))", "Option('A', '{B}')", "Option('A', domain=[1, 2])",
+    "Option": ["Option('A', rec('dflt'))","Option('A')", "Option('A', 5)", "Option('S.X', Option('B'))", "Option('A', '{B}')", "Option('A', domain=[1, 2])",
                "Option('A', 1, domain=Option('DOM', [1, 2]))", "Option('L.0')", "Option('A', domain=lambda t: {2: True}[t])",
                "Option('A', 7, domain=lambda t: {2: True, 7: True}[t])"],
     "Template": ["Template('{A}-{S.X}')", "Template('{A} {:p:}', p=Option('B', 2))"],
@@ -269,6 +280,22 @@ def check_law(law, expr, o, fresh):
             shown = got if got[0] == "ok" else ("err", repr(got[1])[:120])
             return f"evaluate gives {shown!r}; the eager computation gives {want!r}"
         return None
+    if law == "C06":
+        from .reference import ref_outcome
+        log = ns()["LOG"]
+        del log[:]
+        got = outcome(lambda: fresh()(copy.deepcopy(o)))
+        ran = list(log)
+        del log[:]
+        want = ref_outcome(fresh(), o)
+        needed = set(log)
+        del log[:]
+        if want[0] == "unknown":
+            return None
+        extra = [x for x in ran if x not in needed]
+        if extra:
+            return f"bodies {extra} ran although the selected path does not need them (ran {ran}; needed {sorted(needed)})"
+        return None
     if law == "C08":
         from confectioner import mix
         n = type(e).__name__
@@ -322,7 +349,7 @@ def check_law(law, expr, o, fresh):
 
 
 LAW_OF_GROUP = {"L1": ["L1"], "L2": ["L2"], "L3": ["L3"], "L4a": ["L4a"], "L4t": ["L4t"], "L5": ["L5"], "L5b": ["L5b"], "L5d": ["L5d"],
-                "L6": ["L6"], "L6v": ["L6v"], "C05": ["C05"], "C08": ["C08"], "with_options": ["C08"], "with_default_options": ["C08"], "tower": ["C08", "C05"]}
+                "L6": ["L6"], "L6v": ["L6v"], "C05": ["C05"], "C08": ["C08"], "C06": ["C06"], "C06c": ["C06"], "with_options": ["C08"], "with_default_options": ["C08"], "tower": ["C08", "C05"]}
 
 
 def build(recipe):
@@ -367,7 +394,7 @@ def _shadowed(o, d, prefix=""):
 
 def known_region(recipe, o, law):
     """recorded findings (known_findings.json): inputs inside their regions are not reported again"""
-    if law in ("C05", "C08"):
+    if law in ("C05", "C08", "C06"):
         return False
     try:
         root = build(recipe)
